@@ -423,6 +423,65 @@ pub fn spaces(tier: Tier) -> Vec<Space> {
             }
         }));
     }
+    // (a6) conditional grammar: every token string of up to N symbols over {IF, NOTIF, ELSE, ENDIF, OP_0, OP_1, OP_2, VERIFY, DUP}
+    // (balanced or not, any nesting, stray and repeated structure opcodes) - the reference decides what is prescribed
+    {
+        let syms: Vec<u8> = vec![0x63, 0x64, 0x67, 0x68, 0x00, 0x51, 0x52, 0x69, 0x76];
+        let ns = syms.len() as u64;
+        let maxk: u32 = if thorough { 8 } else { 6 };
+        let mut offsets = vec![0u64];
+        for k in 0..=maxk {
+            offsets.push(offsets[k as usize] + ns.pow(k));
+        }
+        let total = *offsets.last().unwrap();
+        v.push(Space::new("cond-grammar", total, move |case, acc| {
+            let k = offsets.iter().rposition(|o| *o <= case.idx).unwrap();
+            let mut rem = case.idx - offsets[k];
+            let mut toks = vec![Tok::Op(0x61); k];
+            for i in (0..k).rev() {
+                toks[i] = Tok::Op(syms[(rem % ns) as usize]);
+                rem /= ns;
+            }
+            let desc = || json!({"program": toks.iter().map(tokname).collect::<Vec<_>>().join(" ")});
+            if let Some(d) = check_program(&toks, acc, case, &desc) {
+                report(acc, case, &toks, &d, &desc);
+            }
+        }));
+    }
+    // (a7) nesting sweep: d nested conditionals for every d in 1..=N, each level IF or NOTIF with or without ELSE, the
+    // condition values chosen so that the flow turns away at level k (every k) or never
+    {
+        let dmax: u64 = if thorough { 64 } else { 24 };
+        v.push(Space::new("nesting-sweep", dmax * (dmax + 1) * 4, move |case, acc| {
+            let c = crate::engine::coords(case.idx, &[dmax, dmax + 1, 4]);
+            let d = c[0] as usize + 1;
+            let turn = c[1] as usize; // level at which the branch is not taken (d = never)
+            if turn > d {
+                return;
+            }
+            let (notif, with_else) = (c[2] & 1 == 1, c[2] & 2 == 2);
+            let mut toks: Vec<Tok> = vec![];
+            for lvl in 0..d {
+                let taken = lvl != turn;
+                // IF takes a true condition, NOTIF a false one
+                toks.push(Tok::Op(if taken != notif { 0x51 } else { 0x00 }));
+                toks.push(Tok::Op(if notif { 0x64 } else { 0x63 }));
+                toks.push(Tok::Op(0x52 + (lvl % 8) as u8));
+            }
+            for lvl in (0..d).rev() {
+                if with_else {
+                    toks.push(Tok::Op(0x67));
+                    toks.push(Tok::Op(0x5a + (lvl % 6) as u8));
+                }
+                toks.push(Tok::Op(0x68));
+            }
+            toks.push(Tok::Op(0x74));
+            let desc = || json!({"nesting_depth": d, "not_taken_at_level": turn, "opener": if notif { "NOTIF" } else { "IF" }, "with_else": with_else});
+            if let Some(dv) = check_program(&toks, acc, case, &desc) {
+                report(acc, case, &toks, &dv, &desc);
+            }
+        }));
+    }
     // (b) alt stack: every opcode with a non-empty alt stack (must stay untouched) and FROMALTSTACK/TOALTSTACK round trips
     {
         let (vals, specs) = (vals.clone(), specs.clone());
